@@ -29,6 +29,16 @@ def install_shims():
 _mods = {}
 
 
+def _seed():
+    """VERIF_SEED varies the tensors of the scripted states (the histories are enumerated)"""
+    import os
+
+    try:
+        return int(os.environ.get("VERIF_SEED", "0"))
+    except ValueError:
+        return 0
+
+
 def mods():
     """import the implementation lazily (torch import ≈ 2 s)"""
     if not _mods:
@@ -71,6 +81,7 @@ def make_config(run_dir, opts=None):
         model=model_config(),
         device="cpu",
         run_dir=run_dir,
+        load_model=opts.get("load_model"),
         lr=1e-2,
         replay_buffer_steps=int(opts.get("replay_buffer_steps", 3)),
         train_batch=int(opts.get("train_batch", 4)),
@@ -97,7 +108,7 @@ def make_batch(seed, n=5, width=6):
     positions[0, 0] carries `seed % 200` as a marker"""
     m = mods()
     torch = m.torch
-    g = torch.Generator().manual_seed(100003 * seed + 17)
+    g = torch.Generator().manual_seed(100003 * seed + 17 + 1000003 * _seed())
     pos = torch.randint(0, 200, (n, width), generator=g)
     pos[:, 1] = torch.arange(n)  # rows pairwise distinct
     pos[0, 0] = seed % 200
@@ -115,11 +126,17 @@ def init_state(run, sid, step):
     and non-zero counters"""
     m = mods()
     torch = m.torch
-    torch.manual_seed(7919 * sid + 1)
+    torch.manual_seed(7919 * sid + 1 + 1000003 * _seed())
     st = run.state
     st.model.to(run.config.train_dtype)
+    # `init_weights` leaves biases and the output head as the constructor drew them, and the
+    # constructor ran before the seed was set (a new interpreter seeds its generator at random):
+    # draw EVERY parameter under the seed first, so that a state is a function of `sid` alone
+    with torch.no_grad():
+        for p in st.model.parameters():
+            p.normal_(mean=0.0, std=0.05)
     st.model.init_weights()
-    loss_fn = None
+    st.opt.state.clear()  # also after a resume the state is a function of `sid` alone
     for i in range(2):
         b = make_batch(1000 * sid + i)
         st.opt.zero_grad()
@@ -238,10 +255,12 @@ def params_fp(tensors):
 
 
 def resume_outcome(run_dir, opts=None):
-    """the REAL resume logic on a fresh TrainingRun/TrainState: `load_or_init_model`.
-    Returns (kind, detail): kind in fresh | loaded | error"""
-    m = mods()
+    """the REAL resume logic on a fresh TrainingRun/TrainState: `load_or_init_model`
+    (`opts["load_model"]` sets `config.load_model`).
+    Returns run, (kind, detail, base): kind in fresh | loaded | error; `base` = digests of the
+    untouched fresh TrainState (what a new optimiser, an empty buffer and zero counters are)"""
     run = fresh_run(run_dir, opts)
+    base = fingerprint(run.state)
     seen = {"init": 0}
     orig = run.state.model.init_weights
 
@@ -253,7 +272,7 @@ def resume_outcome(run_dir, opts=None):
     try:
         run.load_or_init_model()
     except BaseException as e:  # a loud failure
-        return run, ("error", type(e).__name__)
+        return run, ("error", type(e).__name__, base)
     if seen["init"]:
-        return run, ("fresh", None)
-    return run, ("loaded", fingerprint(run.state))
+        return run, ("fresh", fingerprint(run.state), base)
+    return run, ("loaded", fingerprint(run.state), base)
